@@ -227,7 +227,8 @@ def run_chunk(args):
                     res["bad"].append(v)
                 res["nbad"] += 1
     if rc != 0:
-        res["crash"] = {"rc": rc, "last_case": last_hdr, "stderr": err[-3000:], "mode": mode, "seed": seed}
+        res["crash"] = {"rc": rc, "last_case": last_hdr, "stderr": err[-3000:], "mode": mode, "seed": seed, "first": first,
+                        "engine": os.path.basename(os.path.dirname(exe)) if exe else "corpus"}
     shutil.rmtree(rundir, ignore_errors=True)
     res["hashes_nt"] = list(res["hashes_nt"])
     return res
@@ -411,9 +412,31 @@ def main():
                 b["kind"] = "PROPFAIL"   # not listed as open: a violation like any other
     found = handle_propfails(bad, "propfail")
 
+    # a harness that died (sanitizer abort, uncaught exception): find the case and replay it alone
+    unresolved_crashes = []
+    for cr in total["crashes"][:4]:
+        m = re.match(r"# case (\S+) (\S+) (\d+) (\d+)", cr.get("last_case") or "")
+        cands = [int(m.group(4)) + 1, int(m.group(4))] if m else [cr.get("first", 0)]
+        eng = cr.get("engine")
+        hit = None
+        for idx in cands:
+            if eng in exe_by_name:
+                lines, verds, rc, err = replay_case(exe_by_name[eng], (eng, cr["mode"], cr["seed"], idx))
+                if rc != 0:
+                    hit = (idx, lines, err); break
+        if hit:
+            path = write_replay(pid, "%s-crash-%s-%d-%d.json" % (pid, cr["mode"], cr["seed"], hit[0]),
+                                {"property": pid, "kind": "crash", "engine": eng, "mode": cr["mode"], "seed": cr["seed"], "index": hit[0],
+                                 "exit_code": cr["rc"], "stderr_tail": hit[2], "lines": hit[1], "verdicts": []})
+            log("HARNESS ABORTED in case %s %s %d %d:\n%s" % (eng, cr["mode"], cr["seed"], hit[0], hit[2][-800:]))
+            violations.append((path, ""))
+            found_crash = True
+        else:
+            unresolved_crashes.append(cr)
+    total["crashes"] = unresolved_crashes
     mismatches = [b for b in bad if b["kind"] in ("MISMATCH", "BADLINE")]
     broken = bool(mismatches) or bool(problems) or bool(build_errors) or bool(total["crashes"])
-    if broken and not found:
+    if broken and not found and not any(v[0].find("-crash-") >= 0 for v in violations):
         # 3. search for a concrete failing input near the disagreement
         log("correspondence/proof broken (%d mismatches, %d proof problems, %d crashes): searching for a failing input" %
             (len(mismatches), len(problems), len(total["crashes"])))
